@@ -195,6 +195,10 @@ class Exec:
                       'bv16': lambda n: SBV(z3.BitVec(n, 16))}
         self.kinds.update(kinds or {})
         self.readonly = set()         # heap keys registered read-only by the models (never havocked by loops)
+        if 'const_hook_factory' in self.c:
+            self.c = dict(self.c)
+            self.c['const_hook'] = self.c['const_hook_factory'](self)
+        self.in_loop = 0
         self.assumed = set()          # names of assumed primitive models actually used
         self.st0 = None
         self.finished = []            # states that reached the postcondition
@@ -775,6 +779,7 @@ class Exec:
         return a, b
 
     def s_If(self, st, s):
+        npc = len(st.pc)
         c = self.truth(st, self.ev(st, s.test), s)
         a, b = self.fork_on(st, c)
         out = []
@@ -782,7 +787,79 @@ class Exec:
             out += self.run_block([a], s.body)
         if b is not None:
             out += self.run_block([b], s.orelse)
+        mode = self.c.get('merge_ifs')
+        if mode and len(out) > 1 and (mode is True or (mode == 'outside-loops' and not self.in_loop)):
+            m = self.merge_states(npc, out, s)
+            if m is not None:
+                return [m]
         return out
+
+    def merge_states(self, npc, states, node):
+        """join the paths of an if-statement into one state (values become conditional expressions); None if not possible"""
+        if any(q.ctl is not None for q in states):
+            live = [q for q in states if q.ctl is None]
+            if len(live) < 2:
+                return None
+            rest = [q for q in states if q.ctl is not None]
+            m = self.merge_states(npc, live, node)
+            return None if m is None else None     # mixed control flow: keep the paths forked
+        first = states[0]
+        for q in states[1:]:
+            if q.tags != first.tags or q.decided != first.decided or len(q.pc) < npc or \
+                    any(x is not y and not z3.eq(x, y) for x, y in zip(q.pc[:npc], first.pc[:npc])):
+                return None
+        conds = [z3.And(*q.pc[npc:]) if len(q.pc) > npc else z3.BoolVal(True) for q in states]
+
+        def merge_val(vals):
+            if all(v is vals[0] for v in vals):
+                return vals[0]
+            if all(not is_sym(v) and not isinstance(v, (Model, z3.ExprRef)) for v in vals):
+                try:
+                    if all(type(v) is type(vals[0]) and v == vals[0] for v in vals):
+                        return vals[0]
+                except Exception:  # noqa
+                    pass
+            if all(isinstance(v, tuple) for v in vals) and len({len(v) for v in vals}) == 1:
+                return tuple(merge_val([v[i] for v in vals]) for i in range(len(vals[0])))
+            r = vals[-1]
+            for cnd, v in zip(reversed(conds[:-1]), reversed(vals[:-1])):
+                if isinstance(v, Model) or isinstance(r, Model):
+                    if v is r:
+                        continue
+                    if hasattr(v, 'm_merge') and type(v) is type(r):
+                        r = v.m_merge(self, SBool(cnd), r)
+                        continue
+                    raise NotInSubset('unmergeable')
+                if isinstance(v, z3.ArrayRef) or isinstance(r, z3.ArrayRef):
+                    r = z3.If(cnd, v, r)
+                    continue
+                if isinstance(v, z3.ExprRef) or isinstance(r, z3.ExprRef):
+                    r = z3.If(cnd, v, r)
+                    continue
+                if v is None or r is None or isinstance(v, (str, list, dict)) or isinstance(r, (str, list, dict)):
+                    raise NotInSubset('unmergeable')
+                from .logic import ite
+                r = ite(SBool(cnd), v, r)
+            return r
+        m = first.fork()
+        m.pc = list(first.pc[:npc]) + [z3.Or(*conds)]
+        try:
+            env = {}
+            for k in first.env:
+                if all(k in q.env for q in states):
+                    env[k] = merge_val([q.env[k] for q in states])
+            heap = {}
+            for k in first.heap:
+                if all(k in q.heap for q in states):
+                    heap[k] = merge_val([q.heap[k] for q in states])
+                else:
+                    return None
+            if any(set(q.heap) != set(first.heap) for q in states):
+                return None
+        except (NotInSubset, TypeError, z3.Z3Exception):
+            return None
+        m.env, m.heap = env, heap
+        return m
 
     def s_Return(self, st, s):
         st.ret = self.ev(st, s.value) if s.value is not None else None
@@ -920,11 +997,15 @@ class Exec:
             spec['assume'](self, body)      # definitional axioms / requires instantiated at iteration k (0 <= k < n)
         body.tag(f'loop{k}')
         self.assign(body, s.target, it.item(self, body, kk), s)
-        outs = self.run_block([body], s.body)
+        self.in_loop += 1
+        try:
+            outs = self.run_block([body], s.body)
+        finally:
+            self.in_loop -= 1
         after = []
         for o in outs:
-            self.check_frame(fref, o, s)
             if o.ctl in (None, 'continue'):
+                self.check_frame(fref, o, s)
                 o.ctl = None
                 o.env[idx_name] = kk + 1
                 for nm, g in spec['inv'](self, o):
@@ -954,10 +1035,14 @@ class Exec:
         if body is not None:
             body.tag(f'loop{k}')
             var0 = spec['variant'](self, body) if 'variant' in spec else None
-            outs = self.run_block([body], s.body)
+            self.in_loop += 1
+            try:
+                outs = self.run_block([body], s.body)
+            finally:
+                self.in_loop -= 1
             for o in outs:
-                self.check_frame(fref, o, s)
                 if o.ctl in (None, 'continue'):
+                    self.check_frame(fref, o, s)
                     o.ctl = None
                     for nm, g in spec['inv'](self, o):
                         self.prove(o, f'loop{k}:preserve:{nm}', g, s)
